@@ -92,6 +92,9 @@ def fixed_scenarios():
     out.append(p.scn("both-remote merge racing with gates at the simulating nodes", [("g2", a2, b2, "cnot"), ("new", 0), ("new", 1)]))
     p = P(); a = p.new(0); b = p.new(1); b0 = p.send(b, 0); c = p.new(1); p.g1(a, "H")
     out.append(p.scn("merge pulling a register whose node is busy with gates", [("g2", a, b0, "cnot"), ("g1", c, "H"), ("g1", c, "X")]))
+    p = P(); a = p.new(0); b = p.new(1); d = p.new(1); p.g1(b, "H"); p.g2(b, d); b0 = p.send(b, 0); d2 = p.send(d, 2); p.g1(a, "H")
+    out.append(p.scn("gate and measurement of a qubit whose register is being pulled to another node", [("g2", a, b0, "cnot"), ("g1", d2, "X"), ("meas", d2, 1)],
+                     {str(d): [1, 0], str(b): [0]}))
     p = P(); a = p.new(0); b = p.new(1); b0 = p.send(b, 0); c = p.new(1); p.g1(a, "H")
     out.append(p.scn("send racing with a merge", [("g2", a, b0, "cnot"), ("send", c, 0)]))
     # -- two clients, one qubit ----------------------------------------------------------------------------------------
@@ -397,8 +400,6 @@ def run_property(ctx, pid):
     ctx.obligation("oracle %s: every explored schedule outside the listed trigger classes is %s"
                    % (pid, "serializable" if pid == "C03" else "complete and leaves no lock held"), not unlisted,
                    "; ".join(unlisted))
-    if fails and not unlisted:
-        ctx.broken_explained_by_known = True
     for (scn, res, j) in (r1 + r2)[:2]:
         ctx.sample({"scenario": scn["name"], "ops": scn["ops"], "schedule_head": res.schedule[:12], "results": [list(r) for r in res.results],
                     "matching_orders": j["v3"]["orders"]})
